@@ -34,7 +34,7 @@ ASSUMPTIONS = [
 
 def budget(tier):
     if tier == 'thorough':
-        return {'seeds': 90000, 'wall': 900, 'chunk': 100}
+        return {'seeds': 55000, 'wall': 900, 'chunk': 100}
     return {'seeds': 6000, 'wall': 200, 'chunk': 50}
 
 
